@@ -171,6 +171,21 @@ func (c CertificateContent) HashSum() []byte {
 	c.Profile = ""
 	c.Alias = ""
 
+	//a binary attribute value (#hex) is a byte slice, which json writes as base64:
+	//it must not look like the text value that spells this base64 form.
+	//c.Subject shares its memory with the caller, so a copy is changed
+	subject := make(pkix.RDNSequence, len(c.Subject))
+	for i, rdn := range c.Subject {
+		subject[i] = make(pkix.RelativeDistinguishedNameSET, len(rdn))
+		for j, atv := range rdn {
+			if binary, ok := atv.Value.([]byte); ok {
+				atv.Value = struct{ Binary []byte }{binary}
+			}
+			subject[i][j] = atv
+		}
+	}
+	c.Subject = subject
+
 	//the kind of an extension is not part of its json representation, so
 	//it is hashed next to it: two extensions of a different kind must never
 	//look the same, even if their content does
